@@ -74,7 +74,7 @@ def budget(tier):
     # development aid only (never set by the registered commands): VERIF_C14_EXAMPLES=<n>
     import os
     n = os.environ.get("VERIF_C14_EXAMPLES")
-    return dict(examples=int(n) if n else (1200 if tier == "quick" else 36000), shards=16)
+    return dict(examples=int(n) if n else (2500 if tier == "quick" else 36000), shards=16)
 
 
 # ---------------------------------------------------------------- generation
